@@ -2540,7 +2540,7 @@ CLAUSES = [
                       'onplane_exact': 0.015, 'itermap': 0.07, 'refusal_avect': 0.025, 'kind_faultshift': 0.03, 'fpos_rel': 0.12,
                       'a1_only': 0.06, 'centred': 0.12,
                       'history_second_surface': 0.25, 'history_third_surface': 0.11, 'history_faultpos_defaulted_after_set': 0.07,
-                      'history_faultpos_defaulted_after_default': 0.015, 'history_natoms_changed': 0.23,
+                      'history_faultpos_defaulted_after_default': 0.005, 'history_natoms_changed': 0.23,
                       'history_setter_faultpos': 0.12, 'history_fault_between': 0.075, 'history_setter_avect': 0.02,
                       'history_shift_persisted': 0.05, 'history_set_shift': 0.17, 'history_pre_fault': 0.08,
                       # classes carried over from the seeded rounds
